@@ -44,6 +44,9 @@ class ArcEdgeBase(Edge, abc.ABC):
             arm_1 = self.vertex_1.position - self.third_point.position
             arm_2 = self.vertex_2.position - self.third_point.position
 
-            return abs(f.norm(np.cross(arm_1, arm_2))) > constants.TOL
+            # |arm_1 x arm_2| = chord * (distance of the third point from the chord)
+            chord = f.norm(self.vertex_1.position - self.vertex_2.position)
+
+            return abs(f.norm(np.cross(arm_1, arm_2))) > constants.TOL * chord
 
         return False
